@@ -151,6 +151,7 @@ def main():
     if not ck.build():
         ck.finish()
     ck.check_props()
+    ck.check_translation("pstring")
     cases = [gen_case(ck.rng, ck.quick) for _ in range(1500 if ck.quick else 15000)]
     res = ck.impl("c18", cases, per_case_s=60)
     model = ck.oracle([model_req(c) for c in cases])
